@@ -18,6 +18,8 @@ sys.path.insert(0, HERE)
 import pytolean as P  # noqa: E402
 
 SRC = '''
+from operator import lt, gt
+ALPHABET = b'0123456789ABCDEF $'
 LIMIT = 10
 TABLE = (3, 1, 4, 1, 5, 9, 2, 6)
 NAMES = {'a': 1, 'b': 2}
@@ -500,6 +502,92 @@ def bad_loop_local(n):
     return last
 
 # ---- outside the subset
+def apply_fn(m, f, g, w, h):
+    cols = range(w)
+    for i in range(h):
+        row = m[i]
+        for j in cols:
+            if g(i, j):
+                row[j] ^= f(i, j)
+
+def rebinding(n, flag):
+    acc = 0
+    for r in range(n - 1, 0, -2):
+        if flag and r <= 6:
+            r -= 1
+        for z in range(2):
+            acc = acc * 3 + (r - z)
+    return acc
+
+def int_bool_ops(a, b):
+    return (a ^ (b > 2)) + (a & (b > 0)) * 10 + ((a < 3) | b) * 100
+
+def pick_cmp(flag, a, b):
+    better = lt
+    best = 100
+    if flag:
+        better = gt
+        best = -1
+    return better(a, best) and better(a, b)
+
+def conds(is_small):
+    def c0(i, j):
+        return (i + j) & 1 == 0
+
+    def c1(i, j):
+        return i % 3 == 0
+
+    if is_small:
+        return c1,
+    return c0, c1
+
+def c0(i, j):
+    return (i + j) & 1 == 0
+
+def c1(i, j):
+    return i % 3 == 0
+
+def search(xs):
+    best = -1
+    score_fn = tri
+    for k, x in enumerate(xs):
+        s = score_fn(x)
+        if s > best:
+            best = s
+            spot = k
+    return spot * 1000 + best
+
+def hex_value(data):
+    pos = ALPHABET.find
+    total = 0
+    for b in data:
+        total = total * 20 + pos(b)
+    return total
+
+def parse3(data):
+    total = 0
+    for i in range(0, len(data), 3):
+        total = total * 1000 + int(data[i:i + 3])
+    return total
+
+def bad_unbound_none(xs):
+    for x in xs:
+        last = None if x else x
+    return last
+
+def bad_call_kw(f, a):
+    return f(a, j=1)
+
+def bad_fn_arity(f, a):
+    return f(a)
+
+def bad_rebind_pair(xs, ys):
+    acc = 0
+    for a, b in zip(xs, ys):
+        a -= 1
+        acc += a * b
+    return acc
+
 def bad_while(n):
     while n > 0:
         n -= 1
@@ -603,8 +691,39 @@ GOOD = [
          opaque={"content.encode('latin-1')": ('latin1', P.RAISES(BA)), "content.encode('utf-8')": ('utf8', P.RAISES(BA))},
          samples={'content': ['x'], 'latin1': [[1, 2, 7], [], ('raise', 'UnicodeError'), ('raise', 'LookupError')],
                   'utf8': [[0xe2, 0x82, 0xac], [], ('raise', 'UnicodeError')]}, pycall='xor_of_call'),
+    # round 3: callable parameters (one that cannot raise, one that can), `int ^= bool`, a loop variable rebound in the body
+    dict(path=['apply_fn'], params={'m': MAT, 'f': P.FN([I, I], B), 'g': P.FN([I, I], B, raises=True), 'w': I, 'h': I}, ret=N, mutates=['m'],
+         part=3, nsamples=0,
+         cases=[(mm, P.FnSample(lambda i, j: (i + j) % 2 == 0, '(fun i j => decide ((i + j) % 2 = 0))'),
+                 P.FnSample(lambda i, j, t=tt: t[i][j] > 1, '(fun i j => Py.bind (Py.index %s i) (fun r => Py.bind (Py.index r j) (fun c => Except.ok (decide (c > 1)))))'
+                            % ('[' + ', '.join('[' + ', '.join(map(str, r)) + ']' for r in tt) + ']')), w, h)
+                for mm in ([[1, 2, 3], [4, 5, 6]], [[0, 1], [1, 0], [7, 7]], [])
+                for tt in ([[2, 0, 2], [1, 2, 2]], [[2, 2], [0, 2]])
+                for (w, h) in ((2, 2), (3, 2), (2, 3), (0, 0))]),
+    dict(path=['rebinding'], params={'n': I, 'flag': B}, ret=I, part=3, samples={'n': [-1, 0, 1, 2, 5, 8, 9, 12]}),
+    dict(path=['int_bool_ops'], params={'a': I, 'b': I}, ret=I, part=3, samples={'a': SMALL, 'b': SMALL}),
+    # round 3, second part: functions as values, tuples of nested functions, a local first assigned inside a loop, a bound method of
+    # a constant byte string, the builtin `int` on bytes as a declared opaque call
+    dict(path=['pick_cmp'], params={'flag': B, 'a': I, 'b': I}, ret=B, part=3, samples={'a': SMALL, 'b': SMALL}),
+    dict(path=['conds', 'c0'], params={'i': I, 'j': I}, ret=B, part=3, samples={'i': SMALL, 'j': SMALL},
+         pycall=lambda a: (a['i'] + a['j']) & 1 == 0),
+    dict(path=['conds', 'c1'], params={'i': I, 'j': I}, ret=B, part=3, samples={'i': SMALL, 'j': SMALL}, pycall=lambda a: a['i'] % 3 == 0),
+    dict(path=['conds'], params={'is_small': B}, ret=P.LIST(P.FN([I, I], B)), part=3,
+         check_wrap='(fun fs => fs.map (fun f => [f 0 0, f 1 2, f 3 4, f (-3) 5]))', check_ret=P.LIST(P.LIST(B)), pycall='conds_call'),
+    dict(path=['search'], params={'xs': L}, ret=I, part=3, samples={'xs': LISTS + [[5, 5, 2], [0, 0]]}),
+    dict(path=['hex_value'], params={'data': BA}, ret=I, part=3, samples={'data': BYTES + [[0x31, 0x41], [0x20, 0x24, 0x7a]]}),
+    dict(path=['parse3'], params={'data': BA}, ret=I, part=3, nsamples=0,
+         opaque_calls={'int': ('int_of', P.FN([BA], I, raises=True))}, pycall='parse3_call',
+         cases=[(d, P.FnSample(lambda xs: sum(xs) if xs and xs[0] != 0x61 else (_ for _ in ()).throw(ValueError('x')),
+                               '(fun xs => if xs.isEmpty || xs.head? == some 97 then Except.error PyExc.valueError else Except.ok (xs.foldl (· + ·) 0))'))
+                for d in ([], [0x31], [0x31, 0x32, 0x33, 0x34], [0x61, 0x31], [0x31, 0x32, 0x33, 0x61])]),
 ]
 BAD = [
+    dict(path=['bad_unbound_none'], params={'xs': L}, ret=I, part=3),
+    dict(path=['bad_call_kw'], params={'f': P.FN([I, I], I), 'a': I}, ret=I, part=3),
+    dict(path=['bad_fn_arity'], params={'f': P.FN([I, I], I), 'a': I}, ret=I, part=3),
+    dict(path=['bad_rebind_pair'], params={'xs': L, 'ys': L}, ret=I, part=3),
+
     dict(path=['bad_while'], params={'n': I}, ret=I),
     dict(path=['bad_float'], params={'a': I}, ret=I),
     dict(path=['bad_str'], params={'s': S}, ret=S),
@@ -647,7 +766,15 @@ def main():
                     raise {'UnicodeError': UnicodeError, 'LookupError': LookupError}[r[1]]('x')
                 return bytes(r)
         return mod.xor_of(Str(a['content']))
-    calls = {'xor_of_call': xor_of_call, 'box_cost_method': lambda a: mod.Box(a['items'], a['weight']).cost(a['k']),
+    def parse3_call(a):
+        real_int = int
+        mod.int = lambda x, *r: a['int_of'](list(x)) if isinstance(x, (bytes, bytearray)) and not r else real_int(x, *r)
+        try:
+            return mod.parse3(bytes(a['data']))
+        finally:
+            del mod.int
+    calls = {'parse3_call': parse3_call, 'conds_call': lambda a: [[f(i, j) for i, j in ((0, 0), (1, 2), (3, 4), (-3, 5))] for f in mod.conds(a['is_small'])],
+             'xor_of_call': xor_of_call, 'box_cost_method': lambda a: mod.Box(a['items'], a['weight']).cost(a['k']),
              'box_cost_call': lambda a: mod.box_cost(FakeBox(a['items'], a['weight'], a['n_box']), a['k'])}
     for spec in GOOD + BAD:
         spec['module'] = 'sample'
@@ -655,6 +782,9 @@ def main():
         if isinstance(spec.get('pycall'), str):
             spec['pycall'] = calls[spec['pycall']]
         tr.add(spec)
+    # everything goes into ONE test file, whatever round (`part`) a spec asks the semantics of
+    tr.part_of_def = {k: 1 for k in tr.part_of_def}
+    tr.part_of_table = {k: 1 for k in tr.part_of_table}
     failed = False
     status = dict(tr.report)
     for spec in GOOD:
